@@ -188,6 +188,12 @@ def evaluate(ctx, checks, kind, sample, runner, st, info0):
             if got != exp:
                 _v(ctx, "C01", checks, "independent decoding of the saved bytes differs from what was set", kind, sample, runner,
                    {"expected": repr(exp)[:300], "decoded": repr(got)[:300]})
+    # ---- C08 (a save never brings back tag blocks that a delete removed)
+    if st.op in ("save", "fresh") and "C08" in checks and kind.family == "flac":
+        if len(wa["extra"].get("more_vc", [])) > len(wb["extra"].get("more_vc", [])):
+            _v(ctx, "C08", checks, "a comment block removed by an earlier delete is back in the file after a later save", kind, sample, runner)
+    if st.op in ("delete", "moddelete") and "C08" in checks and kind.family == "flac" and wa["extra"].get("more_vc"):
+        _v(ctx, "C08", checks, "a further comment block remains in the file after delete", kind, sample, runner)
     # ---- C08
     if st.op in ("delete", "moddelete") and "C08" in checks:
         if has_tags(kind, wa):
